@@ -109,6 +109,68 @@ CLAIMS["C11"] = dict(
          "find_* registration timeouts are decided in C09.",
     technique=E1, design_ref="4 C11")
 
+E12 = E1 + "; leaf arithmetic additionally by " + E2
+for k in ("C17", "C16", "C04"):
+    CLAIMS[k]["technique"] = E12
+    CLAIMS[k]["e2"] = True
+CLAIMS["C17"]["note"] += " E2 (mirsmt) decides the 9 leaf functions at full width in BOTH the checked (dev) and the wrapping (release) profile, each SMT definition validated against the natively compiled function on >= 56 vectors per run."
+CLAIMS["C16"]["note"] += " E2 decides bounds_check in the wrapping (release) profile too, where Kani cannot look."
+CLAIMS["C04"]["note"] += " E2 decides the branch arithmetic of back_pressure_status / new_position (both publications) at full 64-bit width in both profiles."
+CLAIMS["C03"] = dict(
+    text="Producer side: every appender entry point (shared and exclusive: unfragmented, fragmented x2/x3, claim+commit/abort, end-of-term "
+         "padding) is run with the shared-memory access hook stopping it after its k-th access for SYMBOLIC k; the state left behind "
+         "satisfies commit_complete (a positive length word implies final header + payload; committed frames form a prefix). An "
+         "ordering-class monitor over the recorded accesses shows the first and last store of every frame are release stores of the "
+         "length word with all plain stores in between, and that readers load frame bytes only after an acquire load of a positive "
+         "length word and never touch an uncommitted frame beyond its length word. Consumer side: term_reader::read and all six Image "
+         "poll variants (c05_havoc_*) on a term whose tail is symbolic garbage. One publisher preempted by a complete append of a "
+         "second one at a symbolic access point.",
+    note="Crash points and one preemption are symbolic integers over the REAL code's access sequence (hook H5); memcpy counts as one "
+         "access; memory is sequentially consistent in the model - the monitors check the release/acquire DISCIPLINE by accessor "
+         "class, they do not establish that fence + plain unaligned access is a synchronises-with edge in the Rust memory model. "
+         "Term 256 B, concrete tails/lengths per instance, <= 3 frames in flight, 2 publishers, 1 preemption; arbitrary "
+         "reader/producer interleavings reduce to 'reader runs on some crash-prefix state' by the stated composition argument.",
+    technique=E1 + " with a symbolic crash point / preemption point via the access hook", design_ref="4 C03")
+CLAIMS["C05"] = dict(
+    text="All six Image poll flavours (poll, bounded_poll, controlled_poll, bounded_controlled_poll, controlled_peek, block_poll) plus "
+         "set_position and the closed-image paths against a reference walker written from the property: return value, delivered "
+         "(offset, length, header) sequence, position seen by the handler, final position, bound / limit / action handling (Abort, "
+         "Break, Commit, Continue symbolic per fragment), for symbolic fragment limits (any i32), bounds (any i64), block limits (any "
+         "i32), frame types, flags, ids and payload.",
+    note="R1 instances: literal frame layouts (<= 3 frames, gaps, claimed frames, term end) on a real 4864-byte LogBuffers, term counts "
+         "0,1,3,5,2^23+3,2^31-1; thorough tier adds R2 harnesses with symbolic term count / offsets / lengths on a 128-byte term. "
+         "More than 3 frames per call is outside the bound; repeated polls reduce to the single step from any start position.",
+    technique=E1, design_ref="4 C05")
+CLAIMS["C06"] = dict(
+    text="ManyToOneRingBuffer write / read steps from literal ring states covering every head alignment, occupancy and counter magnitude "
+         "(0, 3 laps, 2^31-32, 2^32, 2^40) on a capacity-32 ring with an i128 placement oracle: accepted iff the space really "
+         "suffices, record / padding / tail exact, nothing else changed; reads deliver in order, once, intact, zero what they consume; "
+         "head <= tail; correlation ids unique from any counter value; stale head cache; one preemption of a producer by a complete "
+         "second producer write or consumer read at a symbolic access point.",
+    note="Capacity 32 only (max message 4 bytes); 26 quick / 122 thorough instances; 2 producers + 1 consumer, one preemption; memcpy "
+         "is one access; 3 producers and >= 2 preemptions are outside the bound.",
+    technique=E1 + " with a symbolic preemption point via the access hook", design_ref="4 C06")
+CLAIMS["C07"] = dict(
+    text="Producer side: the real write is stopped after every access k (plain and wrapped claims, optional surviving producer) and the "
+         "ring satisfies the dead-claim predicate field by field. Consumer side: from constructed dead-claim states (including claims "
+         "that wrapped and unwritten wrap-padding slots) unblock / read / fresh write / read: padding only inside the data area and "
+         "ending at the claim end, 768-byte trailer byte-for-byte unchanged, survivors delivered once and intact, head <= tail, "
+         "unblock()==true implies the next read advances, afterwards a fresh command is accepted and delivered.",
+    note="Capacity 32; literal indices per instance, symbolic contents; the producer and consumer obligations are glued by the "
+         "dead-claim state predicate (asserted by one side, constructed by the other).",
+    technique=E1 + " with a symbolic crash point via the access hook", design_ref="4 C07")
+CLAIMS["C08"] = dict(
+    text="BroadcastTransmitter / BroadcastReceiver / CopyBroadcastReceiver on a 64-byte (one instance 128) buffer: a receiver sees exactly "
+         "the transmitted record for any 8-aligned tail < 2^40, any legal type, any length; sequences of 3 in order; overrun reported "
+         "before anything newer is delivered and the receiver resumes at a valid record; the lap test equals the 64-bit specification "
+         "for all counters < 2^62 (also decided by E2 in the release profile); a transmitter's complete transmits injected at a "
+         "symbolic access point of CopyBroadcastReceiver::receive never yield torn data or a panic; a transmitter stopped after a "
+         "symbolic access never yields a half-written record.",
+    note="Copy-receiver harnesses use literal layouts with symbolic types and bytes (scratch allocation trimmed to 256 real bytes via a "
+         "stub of alloc_buffer_aligned, nominal capacity 4096); one preemption; memcpy is one access; sequentially consistent memory "
+         "(the release-profile fence reordering found natively is outside what the engine models).",
+    technique=E12 + "; symbolic preemption / crash point via the access hook", design_ref="4 C08", e2=True)
+
 NOT_YET = "check not built yet in this session (planned in DESIGN.md section 4); no claim is made"
 NA = {}
 
@@ -149,6 +211,9 @@ def main():
             {"name": "kani-cbmc", "path": "/verif/lib/kanirun.py", "serves_properties": sorted(CLAIMS),
              "kind_free_text": "Kani front end compiles #[kani::proof] harnesses over the real crate to goto binaries; CBMC decides every "
                                "assertion / overflow / pointer check / unwinding assertion with a SAT solver"},
+            {"name": "mirsmt", "path": "/verif/lib/mirsmt.py", "serves_properties": sorted(k for k in CLAIMS if CLAIMS[k].get("e2")) + ["C05"],
+             "kind_free_text": "translates loop-free integer functions from rustc's MIR dump of /repo into SMT-LIB2 bit-vectors (checked and "
+                               "wrapping profile), decided by z3 and cross-checked by cvc5; translator validated against the native build each run"},
         ],
         "checks": checks,
         "not_applicable": na,
